@@ -14,7 +14,7 @@ class C35(M.MpiCheck):
                 types='basic', psm=True, cap=20000)
     own = ('psm-',)
     probes = M.MpiCheck.probes + ('probe_cross_private_block',)
-    budgets = {'quick': dict(runs=1200, wall=40), 'thorough': dict(runs=20000, wall=780)}
+    budgets = {'quick': dict(runs=1200, wall=22), 'thorough': dict(runs=20000, wall=780)}
 
     def nontrivial(self, plan, res):
         return res['stats'].get('recvs_checked', 0) >= 1
